@@ -253,7 +253,7 @@ func TestC06(t *testing.T) {
 	r := ev.Open(t, "C06")
 	defer r.Close(t)
 	r.Rule("constants: ~95 valid UTF-8 texts (quotes, backslashes, escape look-alikes, control characters, JSON look-alikes, HTML, astral code points, separators) x name/summary/content/preferredUsername/source.content " +
-		"of Object, Actor, Activity, Collection and Link x {single untagged, single tagged, 2-language map} x 5 codec entry pairs; random: rapid.String and an escape-biased alphabet, length 1..200, every text-bearing " +
+		"of Object, Actor, Activity, Collection and Link x {single untagged, single tagged, 2-language map, maps holding the untagged default value first / last} x 5 codec entry pairs; random: rapid.String and an escape-biased alphabet, length 1..200, every text-bearing " +
 		"property of every type, maps of 2..4 distinct tags. Oracle: text bytes after decode == bytes before encode, set of (tag,text) pairs preserved for maps (JSON: a lone tagged value may return untagged). " +
 		"value-pairs: the same texts and forms as a language list on its own through NaturalLanguageValues' MarshalJSON/UnmarshalJSON, encoding/json and GobEncode/GobDecode. " +
 		"non-trivial = text holds a backslash, quote, control or non-BMP character or is a JSON/escape look-alike; distinct by property + form + codec + text")
@@ -264,6 +264,9 @@ func TestC06(t *testing.T) {
 			{{Ref: ap.NilLangRef, Value: ap.Content(s)}},
 			{{Ref: "en", Value: ap.Content(s)}},
 			{{Ref: "en", Value: ap.Content(s)}, {Ref: "fr", Value: ap.Content("deuxième " + s)}},
+			// the untagged default value inside a map, first and last
+			{{Ref: ap.NilLangRef, Value: ap.Content(s)}, {Ref: "en", Value: ap.Content("second " + s)}},
+			{{Ref: "en", Value: ap.Content("first " + s)}, {Ref: "fr", Value: ap.Content("deuxième")}, {Ref: ap.NilLangRef, Value: ap.Content(s)}},
 		}
 	}
 	enumTypes := map[string]bool{"Object": true, "Actor": true, "Activity": true, "Collection": true, "Link": true}
@@ -367,6 +370,9 @@ func TestC06(t *testing.T) {
 			off := rapid.IntRange(0, len(tags)-1).Draw(t, "off")
 			for i := 0; i < n; i++ {
 				nl = append(nl, ap.LangRefValue{Ref: tags[(off+i)%len(tags)], Value: ap.Content(text())})
+			}
+			if rapid.IntRange(0, 2).Draw(t, "untagged-in-map") == 0 {
+				nl[rapid.IntRange(0, n-1).Draw(t, "untagged-at")].Ref = ap.NilLangRef
 			}
 		}
 		ci := rapid.IntRange(0, len(c06Codecs)-1).Draw(t, "codec")
